@@ -1,4 +1,4 @@
-"""C09 -- computing changes is pure; performing touches only what was announced (R09.1-R09.11)."""
+"""C09 -- computing changes is pure; performing touches only what was announced (R09.1-R09.12)."""
 from __future__ import annotations
 
 import ast
@@ -965,35 +965,37 @@ def module_without_file_rule(ctx, res, rule: str) -> None:
         if not any(isinstance(c, ast.Call) and call_name(c) == "get_resource" for c in ast.walk(f.node)):
             continue
         node = common.inlined(idx, f)
-        regions = []  # statement lists in which the object is known only as an AbstractModule
+        cfg = CFG(node)
+        sites = []  # get_resource() calls made where the object is known only as an AbstractModule
+        for c in ast.walk(node):
+            if not (isinstance(c, ast.Call) and call_name(c) == "get_resource" and not c.args):
+                continue
+            for nd in cfg.node_containing(c):
+                if any(pol and is_abstract_test(t) for t, pol in cfg.guards(nd.id)):
+                    sites.append(c)
+                    break
         for x in ast.walk(node):
-            if isinstance(x, ast.If) and is_abstract_test(x.test):
-                regions.append(x.body)
             if isinstance(x, ast.Match):
                 for case in x.cases:
                     if any(isinstance(p, ast.MatchClass) and (dotted(p.cls) or "").split(".")[-1] == "AbstractModule" for p in ast.walk(case.pattern)):
-                        regions.append(case.body)
-        for body in regions:
-            for st in body:
-                for c in ast.walk(st):
-                    if not (isinstance(c, ast.Call) and call_name(c) == "get_resource" and not c.args):
-                        continue
-                    n += 1
-                    # the statement that holds the call: an assignment to a name that is None-tested somewhere in the function, or not
-                    holder = next((s for s in ast.walk(st) if isinstance(s, ast.Assign) and s.value is c and len(s.targets) == 1 and isinstance(s.targets[0], ast.Name)), None)
-                    tested = False
-                    if holder is not None:
-                        v = holder.targets[0].id
-                        for t in ast.walk(node):
-                            if isinstance(t, ast.Compare) and isinstance(t.left, ast.Name) and t.left.id == v and len(t.ops) == 1 and isinstance(t.ops[0], (ast.Is, ast.IsNot)) \
-                                    and isinstance(t.comparators[0], ast.Constant) and t.comparators[0].value is None:
-                                tested = True
-                            if isinstance(t, (ast.If, ast.While, ast.IfExp)) and ((isinstance(t.test, ast.Name) and t.test.id == v) or (
-                                    isinstance(t.test, ast.UnaryOp) and isinstance(t.test.op, ast.Not) and isinstance(t.test.operand, ast.Name) and t.test.operand.id == v)):
-                                tested = True
-                    res.add(rule, f"{f.qualname.split('.', 2)[-1]}|resource-of-an-abstract-module-is-none-tested#{n}", tested, f"{f.unit.rel}:{c.lineno}",
-                            "the resource of an object known only as an AbstractModule is compared with None before use" if tested else
-                            f"`{ast.unparse(c)[:60]}` is taken from an object known only to be an AbstractModule and used without a None test: for a builtin or extension module "
-                            "(`import sys` ... the request at `sys`) the resource is None and the refactoring ends in AttributeError instead of a RefactoringError",
-                            function=f.qualname)
+                        sites += [c for st in case.body for c in ast.walk(st) if isinstance(c, ast.Call) and call_name(c) == "get_resource" and not c.args and c not in sites]
+        for c in sites:
+            n += 1
+            # the statement that holds the call: an assignment to a name that is None-tested somewhere in the function, or not
+            holder = next((s_ for s_ in ast.walk(node) if isinstance(s_, ast.Assign) and s_.value is c and len(s_.targets) == 1 and isinstance(s_.targets[0], ast.Name)), None)
+            tested = False
+            if holder is not None:
+                v = holder.targets[0].id
+                for t in ast.walk(node):
+                    if isinstance(t, ast.Compare) and isinstance(t.left, ast.Name) and t.left.id == v and len(t.ops) == 1 and isinstance(t.ops[0], (ast.Is, ast.IsNot)) \
+                            and isinstance(t.comparators[0], ast.Constant) and t.comparators[0].value is None:
+                        tested = True
+                    if isinstance(t, (ast.If, ast.While, ast.IfExp)) and ((isinstance(t.test, ast.Name) and t.test.id == v) or (
+                            isinstance(t.test, ast.UnaryOp) and isinstance(t.test.op, ast.Not) and isinstance(t.test.operand, ast.Name) and t.test.operand.id == v)):
+                        tested = True
+            res.add(rule, f"{f.qualname.split('.', 2)[-1]}|resource-of-an-abstract-module-is-none-tested#{n}", tested, f"{f.unit.rel}:{c.lineno}",
+                    "the resource of an object known only as an AbstractModule is compared with None before use" if tested else
+                    f"`{ast.unparse(c)[:60]}` is taken from an object known only to be an AbstractModule and used without a None test: for a builtin or extension module "
+                    "(`import sys` ... the request at `sys`) the resource is None and the refactoring ends in AttributeError instead of a RefactoringError",
+                    function=f.qualname)
     res.floor(rule, "resources taken from objects known only as AbstractModule", n, 1)
